@@ -167,7 +167,10 @@ def _loop (ctx, repo, f, L):
       def hook (call, env=None, const=const):
         return (True, const) if call_name(call) == '_error_handler' else (False, None)
       start = hs[-1]
-      paths = q.paths_under(repo, mod, g, q.Env({}, [], hook), start, [L.head, L.after, g.exit], f.cls, limit=100)
+      # one iteration from the loop head, through the exception edge into the handler (locals set before the try keep their values)
+      paths = q.paths_under(repo, mod, g, q.Env({}, [], hook), L.head, [L.head, L.after, g.exit], f.cls, limit=800, exc=True)
+      if not any(n in p_ for p_, e_ in paths):
+        paths = q.paths_under(repo, mod, g, q.Env({}, [], hook), start, [L.head, L.after, g.exit], f.cls, limit=100)
       leaving = [p_ for p_, e_ in paths if p_[-1] is not L.head and n in p_]
       ctx.ob('R-EFFECT', f, "after a handler exception (reason %s) the loop goes on with the next message" % cname, not leaving,
              "every path from the exception handler returns to the loop head (handler result is always %s)" % const if not leaving else
@@ -358,6 +361,7 @@ def _buffers (ctx, repo):
           ctx.ob('R-OWN', f, "buffer starts empty", isinstance(v, ast.Constant) and v.value == b'', norm(st), (iom, st), 'D1')
         else:
           good = (isinstance(v, ast.Subscript) and norm(v.value) == 'self.receive_buf' and isinstance(v.slice, ast.Slice) and v.slice.upper is None and v.slice.lower is not None) or _emptied_when_all_consumed(f, st, 'self.receive_buf')
+          if not good: good = _suffix_by_evaluation(repo, iom, cls, f, 'self.receive_buf')
           ctx.ob('R-OWN', f, "`%s` drops a prefix only" % norm(st), good, "suffix slice" if good else "%s rewrites the receive buffer" % f.qual, (iom, st), 'D1')
   ctx.floor('switch-side buffer writers', n, 4)
   # the sockets are non-blocking and a receive is made once per readiness notification; a second recv() in the same invocation
@@ -386,13 +390,49 @@ def _buffers (ctx, repo):
   st = [s_ for t, v, s_, k in q.stores_in(crb.node) if norm(t) == 'self.receive_buf']
   good = bool(st) and all(norm(x.value) == 'self.receive_buf[%s:]' % crb.params[1] or _emptied_when_all_consumed(crb, x, 'self.receive_buf', crb.params[1]) for x in st) \
          and any(norm(x.value) == 'self.receive_buf[%s:]' % crb.params[1] for x in st)
+  if not good:
+    # by evaluation: consuming 2 of b'abcdef' leaves b'cdef'
+    gc_ = q.cfg_of(crb); outs_ = set()
+    for p_, e_ in q.paths_under(repo, iow.module, gc_, q.Env({'self.receive_buf': b'abcdef', crb.params[1]: 2}), gc_.entry, [gc_.exit], iow, limit=20): outs_.add(e_.exact.get('self.receive_buf', '?'))
+    if outs_ == {b'cdef'}: good = True
   ctx.ob('R-AGREE', crb, "consume drops exactly the requested number of bytes from the head", good, norm(st[0]) if st else "?", crb, 'D1')
   pk = q.find_method(repo, iow, 'peek', 'C02'); ctx.analysed(pk)
   rv = [norm(r.value) for r in q.returns_of(pk.node)]
-  ctx.ob('R-AGREE', pk, "peek shows the buffer from its head without consuming", set(rv) <= {'self.receive_buf', 'self.receive_buf[:length]'} and not [1 for t, v, s_, k in q.stores_in(pk.node)], "returns %s" % rv, pk, 'D1')
+  # by evaluation on a sample buffer: peek() -> everything, peek(2) -> the first two bytes, the buffer itself untouched
+  gp_ = q.cfg_of(pk); vals_ = {}
+  for ln_ in (None, 2):
+    outs_ = set()
+    for p_, e_ in q.paths_under(repo, iow.module, gp_, q.Env({'self.receive_buf': b'abcdef', (pk.params[1] if len(pk.params) > 1 else 'length'): ln_}), gp_.entry, [n_ for n_ in gp_.nodes if n_.kind == 'return'], iow, limit=20):
+      try: outs_.add((q.eval_env2(repo, iow.module, p_[-1].ast.value, e_, iow), e_.exact.get('self.receive_buf')))
+      except Exception: outs_.add('?')
+    vals_[ln_] = outs_
+  if any('?' in v_ or not v_ for v_ in vals_.values()):
+    ctx.ob('R-AGREE', pk, "peek shows the buffer from its head without consuming", set(rv) <= {'self.receive_buf', 'self.receive_buf[:length]'} and not [1 for t, v, s_, k in q.stores_in(pk.node)], "returns %s" % rv, pk, 'D1')
+  else:
+    good_ = vals_[None] == {(b'abcdef', b'abcdef')} and vals_[2] == {(b'ab', b'abcdef')}
+    ctx.ob('R-AGREE', pk, "peek shows the buffer from its head without consuming", good_, "peek() / peek(2) on a sample buffer" if good_ else "on the buffer b'abcdef' peek() gives %s and peek(2) gives %s (value, buffer afterwards)" % (sorted(vals_[None]), sorted(vals_[2])), pk, 'D1')
   prd = q.find_method(repo, iow, '_push_receive_data', 'C02'); ctx.analysed(prd)
   g = q.cfg_of(prd)
   app = [q.enclosing_stmt_node(g, s_) for t, v, s_, k in q.stores_in(prd.node) if norm(t) == 'self.receive_buf']
   hrx = g.nodes_with_call(lambda c: call_name(c) in ('_handle_rx',) or (call_name(c) == '_call_safe' and '_handle_rx' in norm(c)))
   good = bool(app) and bool(hrx) and g.dominates(app[0], hrx[0]) and g.postdominates(hrx, app[0])
   ctx.ob('R-ORDER', prd, "every arrival is appended and then handed to the receive handler", good, "append dominates _handle_rx, which follows on every path" if good else "arrival can skip the receive handler or be handled before it is appended", prd, 'D7')
+
+
+def _suffix_by_evaluation (repo, mod, cls, f, attr):
+  """the function evaluated on a sample buffer (b'abcdef') with every numeric-looking parameter = 2 and = None: on every path that
+  completes, what it leaves in `attr` is a suffix of the sample (a prefix was dropped, nothing else changed)"""
+  g = q.cfg_of(f)
+  sample = b'abcdef'
+  decided = False
+  avail = (lambda e: isinstance(e, ast.Attribute) and e.attr == 'available' and norm(e.value) == 'self')
+  for val in (2, None, 6):
+    ex = {attr: sample}
+    for p_ in f.params[1:]: ex[p_] = val
+    paths = q.paths_under(repo, mod, g, q.Env(ex, [(avail, len(sample))]), g.entry, [g.exit], cls, limit=40)
+    for p_, e_ in paths:
+      out = e_.exact.get(attr, '?')
+      if not isinstance(out, bytes): return False
+      if not sample.endswith(out): return False
+      decided = True
+  return decided
